@@ -27,6 +27,13 @@ def qualpath(mod: HasQualPath) -> Optional[List[str]]:
         # Unnamed. Return None.
         return None
 
+    func = getattr(mod, "func", None)
+    if func is not None:
+        # Generators are defined where their function is.
+        # (Their `_source_info` is collected inside the dataclass machinery, and points there.)
+        pymodule_name = getattr(func, "__module__", None)
+        return (pymodule_name.split(".") if pymodule_name else []) + [mod.name]
+
     if mod._source_info.pymodule is None:
         # Defined outside a Python module, e.g. in a call to `exec`, a notebook cell, or a `python -c` string.
         # Return its name without any path qualifiers.
